@@ -12,7 +12,8 @@ use std::sync::{Arc, RwLock};
 
 use self::prioritize_chess_moves::sort_chess_moves;
 
-type SearchNode = (u64, i16, i16); // position_hash, alpha, beta
+// position_hash, remaining depth, maximizing_player, alpha, beta
+type SearchNode = (u64, u8, bool, i16, i16);
 type SearchResult = i16; // best_score
 
 mod prioritize_chess_moves;
@@ -162,7 +163,13 @@ fn alpha_beta_minimax(
     beta: i16,
     maximizing_player: bool,
 ) -> Result<i16, SearchError> {
-    let search_node = (board.current_position_hash(), alpha, beta);
+    let search_node = (
+        board.current_position_hash(),
+        depth,
+        maximizing_player,
+        alpha,
+        beta,
+    );
     if let Some(score) = check_cache(context, search_node) {
         trace!(
             "{}alpha_beta_minimax returning cached score: {} for depth: {}",
